@@ -193,9 +193,7 @@ class Interp:
             return st.lifted[k]
         if isinstance(v, (typing._GenericAlias, typing._SpecialForm)) or type(v).__module__ == 'typing':
             return v
-        if callable(v):
-            return v
-        raise EngineError(f'cannot lift live object {v!r} of type {type(v).__name__}')
+        return v     # any other live object is kept as it is (only identity / attribute access is possible on it)
 
     def assign_name(self, name, v, st):
         f = st.frame
@@ -1075,6 +1073,8 @@ class Interp:
             return list(it)
         if isinstance(it, SRec):
             return list(it.vals.values())
+        if isinstance(it, type) and issubclass(it, enum.Enum):
+            return list(it)
         self.err(node, f'iteration over {it!r}')
 
     # -- spec-mode (pure, merged) evaluation -------------------------------------
